@@ -219,6 +219,9 @@ func c14Sorted(rc *RuleCtx) {
 				if isNilConst(v) {
 					continue
 				}
+				if keptSortedCopy(rc, f, r.Results[0], sortCall) {
+					continue // a copy of a listing kept in the receiver, stored there only as (a copy of) the sorted slice
+				}
 				if !domInstr(sortCall, r) {
 					bad = "a non-empty listing is returned on a path that does not pass through the sort"
 				}
@@ -259,6 +262,64 @@ func c14Sorted(rc *RuleCtx) {
 			rc.bad(cons, f.Pos(), "glob does not sort the names of the directory: matches are not returned in lexical order")
 		}
 	}
+}
+
+// copiedFrom: v is `append(<nil or empty>, x...)` or x itself; returns x.
+func copiedFrom(v ssa.Value) ssa.Value {
+	v = strip(v)
+	if c, ok := v.(*ssa.Call); ok {
+		if b, ok := c.Call.Value.(*ssa.Builtin); ok && b.Name() == "append" && len(c.Call.Args) == 2 {
+			if k, ok := strip(c.Call.Args[0]).(*ssa.Const); ok && k.IsNil() {
+				return strip(c.Call.Args[1])
+			}
+		}
+	}
+	return v
+}
+
+// keptSortedCopy: v is a copy of a slice loaded from a field of f's receiver, and that field is only ever assigned nil
+// or (a copy of) the slice that sortCall sorted, after the sort.
+func keptSortedCopy(rc *RuleCtx, f *ssa.Function, v ssa.Value, sortCall ssa.CallInstruction) bool {
+	src := copiedFrom(v)
+	ld, ok := src.(*ssa.UnOp)
+	if !ok || ld.Op != token.MUL {
+		return false
+	}
+	fa, ok := ld.X.(*ssa.FieldAddr)
+	if !ok || len(f.Params) == 0 || strip(fa.X) != ssa.Value(f.Params[0]) {
+		return false
+	}
+	fv := fieldVar(fa)
+	if fv == nil {
+		return false
+	}
+	sorted := strip(sortCall.Common().Args[0])
+	okAll, n := true, 0
+	for _, pk := range []string{"memfs", "orefafs"} {
+		for _, g := range rc.C.srcFuncs(pk) {
+			eachInstr(g, func(in ssa.Instruction) {
+				st, isSt := in.(*ssa.Store)
+				if !isSt {
+					return
+				}
+				sfa, isFA := st.Addr.(*ssa.FieldAddr)
+				if !isFA || fieldVar(sfa) != fv {
+					return
+				}
+				n++
+				if k, isC := strip(st.Val).(*ssa.Const); isC && k.IsNil() {
+					return
+				}
+				if g == f && domInstr(sortCall, st) {
+					if c := copiedFrom(st.Val); c == sorted || sameValue(c, sorted) {
+						return
+					}
+				}
+				okAll = false
+			})
+		}
+	}
+	return okAll && n > 0
 }
 
 func c14Helpers(rc *RuleCtx) {
